@@ -1339,6 +1339,88 @@ def exc_info(case, res):
     return min(infos, key=lambda i: i["dst_margin_px"]) if infos else None
 
 
+# ----------------------------------------------------------------------------------------
+# source tie: the translated text of spec_augment_draw_parameters, interpreted inside Coq
+# ----------------------------------------------------------------------------------------
+IMPORTS_SRC = IMPORTS + "From PV Require C08.SrcRun.\n"
+SRC_THEOREMS = ["c08_source_draw_is_model", "c08_source_draw_exact", "c08_source_time_masks_within_caps",
+                "c08_source_freq_masks_within_bounds", "c08_source_masks_float32"]
+
+
+def _exact_double(x):
+    return Fraction(float(x)) == x
+
+
+def _python_doubles_exact(case):
+    """MiniPy computes Python-level float arithmetic exactly over Q (DESIGN.md section 3).  The draw code does a few
+    operations on Python doubles (1 - eps, F / 2 - eps, F - 2 * V, max_ + omeps of the frequency masks): the interpreted
+    source describes CPython only when each of them is exact in binary64, which is decided here with Fractions."""
+    c, eps, Fd = case["cfg"], EPS[case.get("dtype", "f32")], case["F"]
+    vals = [1 - eps]
+    if c["Wf"]:
+        x = Fraction(Fd, 2) - eps
+        V = min(max(x, 0), fq(c["Wf"]))
+        vals += [x, 2 * V, Fd - 2 * V]
+    if c["Mf"] and c["nf"]:
+        vals.append(min(c["Mf"], Fd) + (1 - eps))
+    return all(_exact_double(v) for v in vals)
+
+
+def src_draw_term(case, res):
+    lens = "None" if case.get("lengths") is None else co(clz(case["lengths"]))
+    N = case["N"]
+    return (f"SrcRun.src_draw_check {CDT[case.get('dtype', 'f32')]} {ccfg(case['cfg'])} {cn(N)} {cn(case['T'])} {cn(case['F'])} {lens} "
+            f"{cl([cuv(case['u'], n) for n in range(N)])} {cl([cparams(e) for e in res['params']])}")
+
+
+def source_tie(chk, cases, results):
+    """run the translated source of spec_augment_draw_parameters inside Coq (vm_compute, float32 rounding = Model.ieee, torch.rand =
+    the case's variates in call order) on the draw / pipe cases of this run and compare bit for bit with what torch drew:
+    validates translator + MiniPy.Interp + ext08 + MiniTorch.OpsC08 against the implementation; independent of whether the tie
+    lemmas still compile"""
+    import time
+    from vlib import CoqError
+    idx, inexact = [], 0
+    for i, (c, r) in enumerate(zip(cases, results)):
+        if c.get("kind") not in ("draw", "pipe") or not isinstance(r, dict) or "params" not in r:
+            continue
+        if not _python_doubles_exact(c):
+            inexact += 1
+            continue
+        idx.append(i)
+    if not idx:
+        chk.extra["source_tie_run"] = {"cases": 0, "disagreements": 0, "skipped_inexact_python_double": inexact}
+        return
+    t0 = time.time()
+    try:
+        vals = coq_eval_bools(chk.workdir, IMPORTS_SRC, [src_draw_term(cases[i], results[i]) for i in idx], shard=40, tag="srcdraw")
+    except CoqError as e:
+        chk.extra["source_tie_run"] = "not evaluated: " + str(e)[-400:]
+        return
+    bad = [idx[j] for j, ok in enumerate(vals) if not ok]
+    grp = lambda i: cases[i]["cfg"]
+    chk.extra["source_tie_run"] = {
+        "cases": len(idx), "disagreements": len(bad), "wall_s": round(time.time() - t0, 1),
+        "skipped_inexact_python_double": inexact,
+        "batch_elements": sum(cases[i]["N"] for i in idx),
+        "lengths_none": sum(1 for i in idx if cases[i].get("lengths") is None),
+        "time_warp": sum(1 for i in idx if grp(i)["Wt"]), "freq_warp": sum(1 for i in idx if grp(i)["Wf"]),
+        "time_masks": sum(1 for i in idx if grp(i)["Mt"] and grp(i)["pt"] and grp(i)["nt"] and grp(i)["npt"]),
+        "freq_masks": sum(1 for i in idx if grp(i)["Mf"] and grp(i)["nf"]),
+        "dtypes": {d: sum(1 for i in idx if cases[i].get("dtype", "f32") == d) for d in ("f16", "f32", "f64")}}
+    chk.count("source_tie_cases", len(idx))
+    if bad:
+        i = bad[0]
+        chk.report({"case": cases[i], "impl": jsonable(results[i]),
+                    "what": "the Python source of spec_augment_draw_parameters as translated to MiniPy and interpreted in Coq "
+                            "(PV.C08.SrcRun.src_draw, torch calls = PV.MiniTorch.OpsC08 with the float32 rounding of Model.ieee, torch.rand = "
+                            "the case's variates) does not reproduce what the implementation drew: translator / interpreter / ext08 / "
+                            "MiniTorch no longer describe the code",
+                    "disagreeing_cases": len(bad),
+                    "correspondence": "tie:C08:py2coq+MiniPy.Interp+MiniTorch:spec_augment_draw_parameters",
+                    "theorems_at_stake": SRC_THEOREMS}, no_failing_input=True)
+
+
 def run(chk, cases=None):
     chk.rule = ("draw/pipe: (api, dtype, N, T, F, lengths, 8 limits, numerators of the uniform variates served by a patched torch.rand); "
                 "every drawn tensor compared bit for bit with PV.C08.Model.draw ieee and judged by Spec.draw_okb; pipe also runs the whole "
@@ -1432,6 +1514,7 @@ def run(chk, cases=None):
                    "correspondence": "corr:C08:" + case["kind"],
                    "theorems_at_stake": THEOREMS.get(clause, sum(THEOREMS.values(), []))}
             chk.report(rec, no_failing_input=True)
+    source_tie(chk, cases, results)
 
 
 def model_show(chk, case, res, clause):
